@@ -68,6 +68,8 @@ def run(ctx):
     ctx.rule("R17.3", "an event without paths contributes nothing (the is_empty edge reaches the next loop iteration without touching "
                       "any accumulator); kinds are taken only from Tag::FileEventKind")
     ctx.rule("R17.5", "COMMON is inserted exactly when common_prefix() returned a path, with that path")
+    ctx.rule("R17.6", "file emission starts from a fresh file: RotatingTempFile::rotate returns Ok only after a newly created temp file replaced the old one, and "
+                      "both file emitters rotate (propagating the error) before they write")
     ctx.rule("R17.4", "the line format writes one line per (event, path, kind) in nested loop order events > paths > kinds, and a "
                       "pathed event without kind yields exactly one `other:` line per path")
 
@@ -264,6 +266,31 @@ def run(ctx):
         ctx.require(len(somes) == 1 and pats == ["FileEventKind"], "R17.3", "kinds-from-fek-tag",
                     "a kind is produced only for Tag::FileEventKind", c.loc(c.line), detail=str(pats),
                     fail="kinds are taken from tags other than FileEventKind (%s)" % pats)
+
+    # ---- R17.6 rotate-before-write
+    try:
+        rt = ctx.anchor_fn("R17.6", "watchexec_cli::state::RotatingTempFile::rotate")
+        n_ok = 0
+        badr = []
+        for q in pathx.Enum().paths(thir.root(rt)):
+            if q.out in ("val", "ret") and (q.val or "").startswith("Ok"):
+                n_ok += 1
+                stores = [e for e in q.ev if e[0] == "assign" and "self.0" in e[1] and e[2].startswith("Some{0: ") and ("NamedTempFile::new" in e[2] or "IntoDiagnostic::into_diagnostic(if)?" in e[2] or "file" in e[2])]
+                fresh = any(e[0] == "call" and strip_generics(e[1]).endswith(("NamedTempFile::new", "NamedTempFile::new_in")) for e in q.ev)
+                if not (stores and fresh):
+                    badr.append(pathx.show_events([e for e in q.ev if e[0] != "call"])[-200:])
+        ctx.require(n_ok >= 1 and not badr, "R17.6", "rotate-ok-means-fresh", "rotate() returns Ok only on paths that created a temp file and stored it in place of the old one",
+                    rt.loc(rt.line), detail="; ".join(badr)[:300],
+                    fail="RotatingTempFile::rotate can return Ok while the previous batch's file is still in place: the next batch is appended after stale lines (" + "; ".join(badr)[:160] + ")")
+        for em in ("emit_events_to_file", "emits_to_file", "emits_to_json_file"):
+            fn_ = facts.find_fn("watchexec_cli::emits::" + em)
+            if fn_ is None:
+                continue
+            names_ = [(strip_generics(c).split("::")[-1], nd.get("l")) for c, nd in thir.calls_in(thir.root(fn_)) if strip_generics(c).endswith(("RotatingTempFile::rotate", "RotatingTempFile::write"))]
+            ok_ = [n for n, _ in names_][:1] == ["rotate"] and "write" in [n for n, _ in names_]
+            ctx.require(ok_, "R17.6", "rotate-then-write:" + em, "%s rotates before it writes" % em, fn_.loc(fn_.line), detail=str(names_))
+    except Skip:
+        pass
 
     # ---- R17.4 line format loop nest
     try:
